@@ -188,7 +188,7 @@ def check(case):
 
 
 def parts(tier):
-    return [Part("build", strategy=_case(), check=check, n={"quick": 6000, "thorough": 120000})]
+    return [Part("build", strategy=_case(), check=check, n={"quick": 6000, "thorough": 1500000})]
 
 
 MANIFEST = {
